@@ -1,5 +1,6 @@
 import CMacVerif.Lemmas.PhotonCache
 import CMacVerif.Lemmas.PhotonCont
+import CMacVerif.Lemmas.PhotonWorker
 /-! C01: no stuck state -- as long as not all requested packets are terminated some label is enabled
 (provided the buffer pool and the task table are not exhausted). -/
 namespace CMacVerif.Photon
